@@ -73,7 +73,9 @@ pub enum Role {
     /// `bad`: 0 = a valid encoding; 1 = the second mutation repeats the first one's key
     /// (duplicate within the solution); 2 = the encoding lacks its last word; 3 = a negative
     /// value length. All solutions solving the predicate then fail to decode together.
-    DataOut { n: usize, col0: Word, delete_first: bool, bad: u8 },
+    /// `empty_key_last`: one more mutation at the very end — the deletion of the zero-length key
+    /// (two words: key length 0, value length 0), the shortest mutation there is.
+    DataOut { n: usize, col0: Word, delete_first: bool, bad: u8, empty_key_last: bool },
     /// leaf: ends with the single word 1 regardless of input
     True,
     /// leaf: ends with a final stack that is *near* the accepting shapes — [x, 1], [x, 2] with
@@ -117,6 +119,7 @@ pub struct Abstract {
     pub decoy_seed: u64,
     pub stale_prelude: bool,
     pub prefix_prelude: bool,
+    pub alias_pred_hash: bool,
 }
 
 #[derive(Clone, Debug)]
@@ -345,6 +348,7 @@ pub fn gen_abstract(rng: &mut Rng, cfg: &GenCfg) -> Abstract {
                             col0: col,
                             delete_first: rng.chance(1, 6),
                             bad,
+                            empty_key_last: bad == 0 && rng.chance(1, 8),
                         };
                         col += nm as Word;
                         r
@@ -457,6 +461,7 @@ pub fn gen_abstract(rng: &mut Rng, cfg: &GenCfg) -> Abstract {
         decoy_seed: rng.next_u64(),
         stale_prelude: rng.chance(1, 3),
         prefix_prelude: rng.chance(1, 4),
+        alias_pred_hash: rng.chance(1, 6),
     }
 }
 
@@ -644,6 +649,7 @@ pub fn node_program(abs: &Abstract, pi: usize, a: usize) -> Vec<Op> {
             col0,
             delete_first,
             bad,
+            empty_key_last,
         } => {
             v.extend(frag_mem_to_stack());
             v.extend(frag_hash_stack()); // [h0..h3]
@@ -666,6 +672,10 @@ pub fn node_program(abs: &Abstract, pi: usize, a: usize) -> Vec<Op> {
                     words.push(0); // h0, patched at run time
                     words.push(t * 64 + j as Word);
                 }
+            }
+            if *empty_key_last {
+                words[0] += 1;
+                words.extend([0, 0]);
             }
             if *bad == 2 {
                 // the last word is missing (the patches below never touch the last word of a
@@ -769,6 +779,7 @@ pub fn realize(abs: &Abstract, numberings: &[Numbering]) -> Workload {
         faults: abs.faults.clone(),
         shape: abs.shape.clone(),
         beacons: abs.beacons,
+        alias_pred_hash: abs.alias_pred_hash,
         stale_prelude: abs.stale_prelude && abs.entry != Entry::TwoPass,
         prefix_prelude: abs.prefix_prelude && abs.entry != Entry::TwoPass && abs.sols.len() >= 2,
     }
@@ -1035,6 +1046,13 @@ pub fn fault_candidates(abs: &Abstract) -> Vec<(CA, Key)> {
             s.muts.iter().map(move |(k, _)| (c, k.clone()))
         })
         .collect();
+    // contracts in which some data output deletes the zero-length key at run time
+    let empty_key_computed: BTreeSet<CA> = abs
+        .preds
+        .iter()
+        .filter(|p| p.roles.iter().any(|r| matches!(r, Role::DataOut { empty_key_last: true, .. })))
+        .map(|p| p.contract)
+        .collect();
     let mut out = Vec::new();
     for p in &abs.preds {
         for r in &p.roles {
@@ -1054,7 +1072,10 @@ pub fn fault_candidates(abs: &Abstract) -> Vec<(CA, Key)> {
             for _ in 0..spec.count {
                 // computed-mutation rows are mutated at run time: never make them bad
                 let computed_row = k.len() == 2 && k[0] >= COMPUTED_ROW && k[0] < COMPUTED_ROW + 100_000;
-                if !computed_row && !mutated.contains(&(c, k.clone())) {
+                // … nor any other key the set proposes a value for: whether the device is asked at
+                // all for such a key is not fixed by any statement
+                let computed_empty = k.is_empty() && empty_key_computed.contains(&c);
+                if !computed_row && !computed_empty && !mutated.contains(&(c, k.clone())) {
                     out.push((c, k.clone()));
                 }
                 match crate::store::next_key(k) {
